@@ -158,6 +158,9 @@ static void writer(Poco::Net::StreamSocket *tx, const std::string *stream, const
 
 int main(int argc, char **argv)
 {
+	// the global logger is not the subject here: library threads that log through it allocate from FastFlow's per-thread allocator, whose
+	// deregistration at thread exit is occasionally reported by ASan (heap-use-after-free in ff/allocator.hpp) - keep it silent
+	FIX8::GlobalLogger::set_levels(FIX8::Logger::Levels(FIX8::Logger::None));
 	Sess *sess(new Sess(SessionID(f8String("FIX.4.2"), f8String("A"), f8String("B"))));
 	Poco::Net::StreamSocket rx;		// the reader keeps a pointer to this object; a new connection is assigned per case
 	FIXReader *reader(new FIXReader(&rx, *sess, pm_thread));	// never started: no thread of its own
